@@ -305,7 +305,12 @@ def export_programs():
     lit = "'a literal that is repeated'"
     out = []
     alls = ["__all__ = ['exported_function', 'EXPORTED_VALUE']", "__all__ = ['exported_function']\n__all__ += ['EXPORTED_VALUE']",
-            "__all__: list = ['exported_function', 'EXPORTED_VALUE']", "__all__ = ('exported_function', 'EXPORTED_VALUE')", "__all__ = []", '']
+            "__all__: list = ['exported_function', 'EXPORTED_VALUE']", "__all__ = ('exported_function', 'EXPORTED_VALUE')", "__all__ = []", '',
+            # several literal lists: every one of them names part of the interface (alternative branches, a later rebinding)
+            "import sys\nif sys.version_info < (3, 0):\n    __all__ = ['exported_function']\nelse:\n    __all__ = ['EXPORTED_VALUE']",
+            "try:\n    __all__ = ['exported_function']\nexcept NameError:\n    __all__ = ['EXPORTED_VALUE']",
+            "__all__ = ['exported_function']\n__all__ = ['EXPORTED_VALUE']",
+            "__all__ = ['exported_function']\nif True:\n    __all__: list = ['EXPORTED_VALUE']\n__all__ += []"]
     for a in alls:
         body = ('%s\nEXPORTED_VALUE = %s\nhidden_value = [%s, %s, %s]\n'
                 'def exported_function(first_argument):\n    local_value = len(first_argument) + len(hidden_value) + len(EXPORTED_VALUE)\n    return local_value, %s, print, print\n'
